@@ -152,7 +152,7 @@ func genIntField(rt *rapid.T, label, name string, env *fillEnv) int64 {
 		}
 	case "expires":
 		if r < 5 {
-			return env.Height + rapid.SampledFrom([]int64{-1, 0, 1, 14_400, 14_401, 100_000, 5_256_000}).Draw(rt, label+"-rel")
+			return env.Height + rapid.SampledFrom([]int64{-1, 0, 1, 14_400, 14_401, 100_000, 5_256_000, 1_600_000_000, 2_100_000_000, 3_000_000_000}).Draw(rt, label+"-rel")
 		}
 		if r < 7 {
 			return 0
